@@ -21,6 +21,10 @@ import (
 
 var log = logging.Log
 
+// maxSymlinks is the number of symlinks we'll follow when opening a file before giving up. This matches the limit
+// used by filepath.EvalSymlinks.
+const maxSymlinks = 255
+
 // Client is an interface to the REAPI CAS
 type Client interface {
 	ReadBlob(ctx context.Context, d digest.Digest) ([]byte, *client.MovedBytesMetadata, error)
@@ -83,7 +87,7 @@ func New(c Client, tree *pb.Tree, workingDir string) *CASFileSystem {
 
 // Open opens the file with the given name
 func (fs *CASFileSystem) Open(name string) (iofs.File, error) {
-	return fs.open(filepath.Join(fs.workingDir, name))
+	return fs.open(filepath.Join(fs.workingDir, name), 0)
 }
 
 // FindNode returns the node proto for the given name. Either FileNode, DirectoryNode or SymlinkNode will be set, or an
@@ -107,7 +111,9 @@ func (fs *CASFileSystem) ChangeDir(path string) *CASFileSystem {
 	}
 }
 
-func (fs *CASFileSystem) open(name string) (iofs.File, error) {
+// open opens the file with the given name relative to the root of the tree, following symlinks. linksFollowed is the
+// number of symlinks that have been followed so far to get to name.
+func (fs *CASFileSystem) open(name string, linksFollowed int) (iofs.File, error) {
 	fileNode, dirNode, linkNode, err := fs.findNode(fs.root, name)
 	if err != nil {
 		return nil, err
@@ -117,7 +123,10 @@ func (fs *CASFileSystem) open(name string) (iofs.File, error) {
 		if filepath.IsAbs(linkNode.Target) {
 			return nil, fmt.Errorf("%v: symlink target was absolute which is invalid", name)
 		}
-		return fs.open(filepath.Join(filepath.Dir(name), linkNode.Target))
+		if linksFollowed >= maxSymlinks {
+			return nil, fmt.Errorf("%v: too many levels of symbolic links", name)
+		}
+		return fs.open(filepath.Join(filepath.Dir(name), linkNode.Target), linksFollowed+1)
 	}
 
 	if fileNode != nil {
